@@ -14,7 +14,8 @@ EXTENDS Naturals, Sequences, FiniteSets, TLC
 
 Digest(alg, m) == <<alg, m>>
 Absent == <<"absent", "">>
-NoAttrs == [present |-> FALSE, ctype |-> "", digest |-> <<"", "">>]
+\* (order: "der" / "swapped" -- the byte order in which the attributes are stored; a signature over one order does not verify over the other)
+NoAttrs == [present |-> FALSE, ctype |-> "", digest |-> <<"", "">>, order |-> ""]
 OverSF(sf) == [kind |-> "sf", sf |-> sf, attrs |-> NoAttrs]
 OverAttrs(a) == [kind |-> "attrs", sf |-> "", attrs |-> a]
 Message(si, sf) == IF ~si.attrs.present THEN OverSF(sf) ELSE OverAttrs(si.attrs)
